@@ -601,8 +601,8 @@ void mutex_lock( mutex_state& m, bool recursive ) noexcept
     Thr* me = tl_self;
     point( &m, K_LOCK );
     for ( ;; ) {
-        if ( m.owner == -1 ) { m.owner = me->id; m.depth = 1; break; }
-        if ( m.owner == me->id && recursive ) { ++m.depth; break; }
+        if ( m.owner == 0 ) { m.owner = me->id + 1; m.depth = 1; break; }
+        if ( m.owner == me->id + 1 && recursive ) { ++m.depth; break; }
         me->st = T_BLK_MUTEX; me->wait_obj = &m;
         decide( R_BLOCK );
     }
@@ -613,8 +613,8 @@ bool mutex_try_lock( mutex_state& m, bool recursive ) noexcept
 {
     Thr* me = tl_self;
     point( &m, K_TRYLOCK );
-    if ( m.owner == -1 ) { m.owner = me->id; m.depth = 1; mark_changed(); if ( S.hb_on ) hb_atomic( &m, K_RMW, MO_ACQ_REL, true ); return true; }
-    if ( m.owner == me->id && recursive ) { ++m.depth; return true; }
+    if ( m.owner == 0 ) { m.owner = me->id + 1; m.depth = 1; mark_changed(); if ( S.hb_on ) hb_atomic( &m, K_RMW, MO_ACQ_REL, true ); return true; }
+    if ( m.owner == me->id + 1 && recursive ) { ++m.depth; return true; }
     return false;
 }
 
@@ -622,11 +622,11 @@ void mutex_unlock( mutex_state& m ) noexcept
 {
     Thr* me = tl_self;
     point( &m, K_UNLOCK );
-    if ( m.owner != me->id )
-        die( 1, "unlock-by-non-owner", "mutex %p unlocked by t%d but owned by t%d", (void*) &m, me->id, m.owner );
+    if ( m.owner != me->id + 1 )
+        die( 1, "unlock-by-non-owner", "mutex %p unlocked by t%d but owned by t%d", (void*) &m, me->id, m.owner - 1 );
     if ( --m.depth == 0 ) {
         if ( S.hb_on ) hb_atomic( &m, K_RMW, MO_ACQ_REL, true );
-        m.owner = -1;
+        m.owner = 0;
         for ( int i = 0; i < S.nthr; ++i )
             if ( S.thr[i].st == T_BLK_MUTEX && S.thr[i].wait_obj == &m ) S.thr[i].st = T_RUNNABLE;
         mark_changed();
@@ -638,9 +638,9 @@ bool cv_wait( cv_state& cv, mutex_state& m, bool timed ) noexcept
     Thr* me = tl_self;
     point( &cv, K_CVWAIT );
     // release the mutex (held once: std::unique_lock)
-    if ( m.owner != me->id ) die( 2, "cv-wait-without-lock", "condition wait by t%d without owning the mutex", me->id );
+    if ( m.owner != me->id + 1 ) die( 2, "cv-wait-without-lock", "condition wait by t%d without owning the mutex", me->id );
     int depth = m.depth;
-    m.depth = 0; m.owner = -1;
+    m.depth = 0; m.owner = 0;
     if ( S.hb_on ) hb_atomic( &m, K_RMW, MO_ACQ_REL, true );
     for ( int i = 0; i < S.nthr; ++i )
         if ( S.thr[i].st == T_BLK_MUTEX && S.thr[i].wait_obj == &m ) S.thr[i].st = T_RUNNABLE;
@@ -651,7 +651,7 @@ bool cv_wait( cv_state& cv, mutex_state& m, bool timed ) noexcept
     if ( S.hb_on && !timed_out ) hb_atomic( &cv, K_LOAD, MO_ACQUIRE, false );
     // re-acquire
     for ( ;; ) {
-        if ( m.owner == -1 ) { m.owner = me->id; m.depth = depth; break; }
+        if ( m.owner == 0 ) { m.owner = me->id + 1; m.depth = depth; break; }
         me->st = T_BLK_MUTEX; me->wait_obj = &m;
         decide( R_BLOCK );
     }
